@@ -571,6 +571,10 @@ def _robust_gp_fit_(
                 )
                 X = X[~idx_drop_out]
                 Y = Y[~idx_drop_out]
+                # The retry's start point may be sampled on tmp_gp itself
+                # (slice sampler): keep its training set aligned
+                tmp_gp.X = X
+                tmp_gp.y = Y
                 # Remove also user specified noise
                 if tmp_gp.s2 is not None and tmp_gp.s2.size > 0:
                     tmp_gp.s2 = tmp_gp.s2[~idx_drop_out]
